@@ -236,5 +236,311 @@ Proof.
       specialize (E5 (Zlength r) Hlr). lia.
     + cbn [bind relR]. exact I.
 Qed.
+Definition relD (a : res (dec_st * data)) (b : res (dec_st * list Z)) : Prop :=
+  match a, b with
+  | Ok (st1, rv1), Ok (st2, a2) => st1 = st2 /\ flat rv1 = rev a2 /\ 0 <= snd st1
+  | Null, Null => True
+  | _, _ => False
+  end.
+
+Lemma firstn_all_Z : forall (l : list Z), firstn (Z.to_nat (Zlength l)) l = l.
+Proof. intros. rewrite Zlength_correct, Nat2Z.id. apply firstn_all. Qed.
+
+Lemma b64d_region_sim : forall r x count pad rv acc0 offset,
+  bytes r -> Zlength r < 2 ^ 60 -> 0 <= pad -> flat rv = rev acc0 ->
+  relD (b64d_region ((x, count, pad), rv) offset r) (foldi (fun _ => d64_step) 0 r ((x, count, pad), acc0)).
+Proof.
+  intros r x count pad rv acc0 offset Hb Hlen Hpad Hrv.
+  unfold b64d_region.
+  set (cap := howmany (Zlength r) 4 * 3).
+  change (b64d_body cap r) with (fun i s => do c <- rdo 861 r i; (fun _ : Z => b64d_char cap) i c s).
+  rewrite iter_rdo0.
+  pose proof (Zlength_nonneg r) as Hlr.
+  assert (Hcap : 0 + 3 * ((count mod 4 + Zlength r) / 4) <= cap) by (unfold cap, howmany; lia).
+  assert (H := region_sim64 cap r x count pad 0 [] acc0 0 0 Hb eq_refl Hpad Hcap).
+  cbn [app] in H. unfold dec_st, obuf, data in *. revert H.
+  match goal with |- relR _ _ ?A ?B -> _ =>
+    destruct A as [[[[x1 c1] p1] [n1 l1]]| |]; destruct B as [[[[x2 c2] p2] a2]| |] end;
+    intros H; cbn [relR] in H; try contradiction; cbn [bind relD]; auto.
+  destruct H as (E1 & E2 & E3 & E4 & E5). inversion E1; subst x2 c2 p2 a2.
+  pose proof (Zlength_nonneg l1).
+  assert (Hu : u64 n1 = n1) by (apply u64_id; unfold cap, howmany in *; lia).
+  rewrite Hu. replace (cap <? n1) with false by lia. cbn [relD snd].
+  split; [reflexivity|]. split; [|exact E5].
+  unfold data_concat. rewrite flat_app, flat_create, Hrv, E3.
+  assert (HF : firstn (Z.to_nat (Zlength l1)) (rev l1) = rev l1)
+    by (rewrite Zlength_correct, Nat2Z.id, <- rev_length; apply firstn_all).
+  rewrite HF, rev_app_distr. reflexivity.
+Qed.
+
+Lemma b64d_regions_sim : forall d x count pad rv acc0 offset,
+  bytes (flat d) -> Forall (fun r => Zlength r < 2 ^ 60) d -> 0 <= pad -> flat rv = rev acc0 ->
+  relD (apply_regions b64d_region d offset ((x, count, pad), rv))
+       (foldi (fun _ => d64_step) 0 (flat d) ((x, count, pad), acc0)).
+Proof.
+  induction d as [|r d IH]; intros x count pad rv acc0 offset Hb Hlen Hpad Hrv.
+  - cbn. auto.
+  - cbn [apply_regions]. change (flat (r :: d)) with (r ++ flat d) in *.
+    apply Forall_app in Hb. destruct Hb as [Hb1 Hb2].
+    apply Forall_cons_iff in Hlen. destruct Hlen as [Hl1 Hl2].
+    rewrite foldi_app.
+    assert (H := b64d_region_sim r x count pad rv acc0 offset Hb1 Hl1 Hpad Hrv). unfold dec_st, obuf, data in *. revert H.
+    match goal with |- relD ?A ?B -> _ =>
+      destruct A as [[[[x1 c1] p1] rv1]| |]; destruct B as [[[[x2 c2] p2] a2]| |] end;
+      intros H; cbn [relD] in H; try contradiction; cbn [bind relD]; auto.
+    destruct H as (E1 & E2 & E3). inversion E1; subst x2 c2 p2.
+    rewrite (foldi_noindex d64_step (flat d) (0 + Zlength r) 0).
+    apply IH; auto.
+Qed.
+
+(* Base64 decoding of ANY input, split into regions in ANY way, is the fold over the flat string:
+   same NULL/non-NULL, same bytes, and no out-of-bounds access *)
+Theorem from_base64_flat : forall d,
+  bytes (flat d) -> Forall (fun r => Zlength r < 2 ^ 60) d ->
+  flat_res (from_base64 d) = dec64_flat (flat d).
+Proof.
+  intros d Hb Hl. unfold from_base64, dec64_flat.
+  assert (H := b64d_regions_sim d 0 0 0 [] [] 0 Hb Hl (Z.le_refl 0) eq_refl). unfold dec_st, obuf, data in *. revert H.
+  match goal with |- relD ?A ?B -> _ =>
+    destruct A as [[[[x1 c1] p1] rv1]| |]; destruct B as [[[[x2 c2] p2] a2]| |] end;
+    intros H; cbn [relD] in H; try contradiction; cbn [bind flat_res]; auto.
+  destruct H as (_ & E & _). rewrite E. reflexivity.
+Qed.
+
+Lemma d64_step_no_oob : forall c s site, d64_step c s <> OOB site.
+Proof.
+  intros c [[[x count] pad] acc] site. unfold d64_step.
+  repeat match goal with
+  | |- context [if ?b then _ else _] => destruct b
+  | |- context [match rd ?t ?c with _ => _ end] => destruct (rd t c)
+  end; discriminate.
+Qed.
+
+Lemma foldi_no_oob {S : Type} (g : Z -> S -> res S) :
+  (forall c s site, g c s <> OOB site) -> forall l i s site, foldi (fun _ => g) i l s <> OOB site.
+Proof.
+  intros Hg. induction l; intros; cbn [foldi]; [discriminate|].
+  destruct (g a s) eqn:E; cbn [bind]; auto; try discriminate. exfalso. eapply Hg; eauto.
+Qed.
+
+Theorem from_base64_no_oob : forall d site,
+  bytes (flat d) -> Forall (fun r => Zlength r < 2 ^ 60) d -> from_base64 d <> OOB site.
+Proof.
+  intros d site Hb Hl E. assert (H := from_base64_flat d Hb Hl). rewrite E in H. cbn in H.
+  unfold dec64_flat in H.
+  destruct (foldi (fun _ : Z => d64_step) 0 (flat d) (0, 0, 0, [])) as [[? ?]| |] eqn:F; try discriminate.
+  inversion H; subst. eapply (foldi_no_oob d64_step d64_step_no_oob); eauto.
+Qed.
 End B64dec.
 
+
+(* ------------------------------------------------------------------------------------------------ finite sweeps *)
+
+Definition zrange (n : nat) : list Z := map Z.of_nat (seq 0 n).
+Lemma zrange_in : forall n k, 0 <= k < Z.of_nat n -> In k (zrange n).
+Proof.
+  intros. unfold zrange. apply in_map_iff. exists (Z.to_nat k). split; [lia|]. apply in_seq. lia.
+Qed.
+Lemma forallb_zrange : forall n (P : Z -> bool), forallb P (zrange n) = true ->
+  forall k, 0 <= k < Z.of_nat n -> P k = true.
+Proof. intros n P H k Hk. rewrite forallb_forall in H. apply H, zrange_in, Hk. Qed.
+Lemma forallb_zrange2 : forall n m (P : Z -> Z -> bool),
+  forallb (fun a => forallb (P a) (zrange m)) (zrange n) = true ->
+  forall a b, 0 <= a < Z.of_nat n -> 0 <= b < Z.of_nat m -> P a b = true.
+Proof. intros n m P H a b Ha Hb. apply (forallb_zrange m (P a)); auto. apply (forallb_zrange n _ H a Ha). Qed.
+
+(* ------------------------------------------------------------------------------------------------ Base64: the flat encoder and the round trip *)
+
+Definition e64 (k : Z) : Z := nth (Z.to_nat k) base64_encode_table 0.
+
+(* RFC 4648 section 4 on a flat byte string, with the digit expressions of transform.c:966-994 *)
+Fixpoint b64_spec (l : list Z) : list Z :=
+  match l with
+  | a :: b :: c :: r =>
+      e64 (Z.land (Z.shiftr a 2) 63) :: e64 (Z.land (Z.lor (Z.shiftl a 4) (Z.shiftr b 4)) 63) ::
+      e64 (Z.land (Z.lor (Z.shiftl b 2) (Z.shiftr c 6)) 63) :: e64 (Z.land c 63) :: b64_spec r
+  | [a; b] =>
+      [e64 (Z.land (Z.shiftr a 2) 63); e64 (Z.land (Z.lor (Z.shiftl a 4) (Z.shiftr b 4)) 63);
+       e64 (Z.land (Z.shiftl b 2) 60); PAD]
+  | [a] => [e64 (Z.land (Z.shiftr a 2) 63); e64 (Z.land (Z.shiftl a 4) 48); PAD; PAD]
+  | [] => []
+  end.
+
+Section B64rt.
+Local Ltac Zify.zify_post_hook ::= Z.div_mod_to_equations.
+
+(* every digit 0..63: its character is no white space, lies inside the decode table, and decodes to the digit *)
+Lemma digit64 : forall k, 0 <= k < 64 ->
+  is_ws (e64 k) = false /\ (base64_decode_table_size <=? e64 k) = false /\ rd base64_decode_table (e64 k) = Some k.
+Proof.
+  intros k Hk.
+  assert (H : forallb (fun k => negb (is_ws (e64 k)) && negb (base64_decode_table_size <=? e64 k) &&
+                        match rd base64_decode_table (e64 k) with Some v => v =? k | None => false end) (zrange 64) = true)
+    by (vm_compute; reflexivity).
+  pose proof (forallb_zrange 64 _ H k Hk) as Hk'. cbv beta in Hk'.
+  destruct (is_ws (e64 k)); [discriminate|].
+  destruct (base64_decode_table_size <=? e64 k); [discriminate|].
+  destruct (rd base64_decode_table (e64 k)); [|discriminate].
+  cbn in Hk'. repeat split. f_equal. lia.
+Qed.
+
+Definition xs (x k : Z) : Z := u64 (u64 (Z.shiftl x 6) + u64 k).
+
+Lemma d64_digit : forall k x count pad acc, 0 <= k < 64 ->
+  d64_step (e64 k) ((x, count, pad), acc) =
+    if (count + 1) mod 4 =? 0 then
+      if 2 <? pad then Null
+      else Ok ((xs x k, u64 (count + 1), 0),
+               skipn (Z.to_nat pad) (Z.land (xs x k) 255 :: Z.land (Z.shiftr (xs x k) 8) 255 ::
+                                     Z.land (Z.shiftr (xs x k) 16) 255 :: acc))
+    else Ok ((xs x k, u64 (count + 1), pad), acc).
+Proof.
+  intros k x count pad acc Hk. destruct (digit64 k Hk) as (H1 & H2 & H3).
+  unfold d64_step. rewrite H1, H2, H3.
+  replace (k =? -1) with false by lia. replace (k =? -2) with false by lia.
+  rewrite land3. replace (u64 (count + 1) mod 4) with ((count + 1) mod 4) by (unfold u64; lia).
+  reflexivity.
+Qed.
+
+Lemma d64_pad : forall x count pad acc,
+  d64_step PAD ((x, count, pad), acc) =
+    if (count + 1) mod 4 =? 0 then
+      if 2 <? u64 (pad + 1) then Null
+      else Ok ((xs x 0, u64 (count + 1), 0),
+               skipn (Z.to_nat (u64 (pad + 1))) (Z.land (xs x 0) 255 :: Z.land (Z.shiftr (xs x 0) 8) 255 ::
+                                     Z.land (Z.shiftr (xs x 0) 16) 255 :: acc))
+    else Ok ((xs x 0, u64 (count + 1), u64 (pad + 1)), acc).
+Proof.
+  intros. unfold d64_step.
+  change (is_ws PAD) with false. change (base64_decode_table_size <=? PAD) with false.
+  change (rd base64_decode_table PAD) with (Some (-2)). cbv iota.
+  change (-2 =? -1) with false. change (-2 =? -2) with true. cbv iota.
+  rewrite land3. replace (u64 (count + 1) mod 4) with ((count + 1) mod 4) by (unfold u64; lia).
+  reflexivity.
+Qed.
+
+(* the low 24 bits of the accumulator after four digits, whatever was in it before *)
+Lemma xs4_low : forall x k0 k1 k2 k3, 0 <= k0 < 64 -> 0 <= k1 < 64 -> 0 <= k2 < 64 -> 0 <= k3 < 64 ->
+  xs (xs (xs (xs x k0) k1) k2) k3 mod 16777216 = k0 * 262144 + k1 * 4096 + k2 * 64 + k3.
+Proof.
+  intros. unfold xs. rewrite !Z.shiftl_mul_pow2 by lia. unfold u64. change (2 ^ 6) with 64. lia.
+Qed.
+
+Lemma out_bytes : forall X a b c, byte a -> byte b -> byte c -> X mod 16777216 = a * 65536 + b * 256 + c ->
+  Z.land (Z.shiftr X 16) 255 = a /\ Z.land (Z.shiftr X 8) 255 = b /\ Z.land X 255 = c.
+Proof.
+  intros X a b c Ha Hb Hc H. unfold byte in *. change 255 with (2 ^ 8 - 1). rewrite !land_low by lia.
+  rewrite !Z.shiftr_div_pow2 by lia. change (2 ^ 16) with 65536. change (2 ^ 8) with 256. lia.
+Qed.
+
+(* digit expressions of the encoder as arithmetic (finite sweeps over one or two bytes) *)
+Lemma dig_a : forall a, byte a -> Z.land (Z.shiftr a 2) 63 = a / 4.
+Proof.
+  intros a Ha. assert (H : forallb (fun a => Z.land (Z.shiftr a 2) 63 =? a / 4) (zrange 256) = true) by (vm_compute; reflexivity).
+  pose proof (forallb_zrange 256 _ H a Ha). cbv beta in *. lia.
+Qed.
+Lemma dig_ab : forall a b, byte a -> byte b -> Z.land (Z.lor (Z.shiftl a 4) (Z.shiftr b 4)) 63 = (a mod 4) * 16 + b / 16.
+Proof.
+  intros a b Ha Hb.
+  assert (H : forallb (fun a => forallb (fun b => Z.land (Z.lor (Z.shiftl a 4) (Z.shiftr b 4)) 63 =? (a mod 4) * 16 + b / 16)
+                (zrange 256)) (zrange 256) = true) by (vm_compute; reflexivity).
+  pose proof (forallb_zrange2 256 256 _ H a b Ha Hb). cbv beta in *. lia.
+Qed.
+Lemma dig_bc : forall b c, byte b -> byte c -> Z.land (Z.lor (Z.shiftl b 2) (Z.shiftr c 6)) 63 = (b mod 16) * 4 + c / 64.
+Proof.
+  intros a b Ha Hb.
+  assert (H : forallb (fun a => forallb (fun b => Z.land (Z.lor (Z.shiftl a 2) (Z.shiftr b 6)) 63 =? (a mod 16) * 4 + b / 64)
+                (zrange 256)) (zrange 256) = true) by (vm_compute; reflexivity).
+  pose proof (forallb_zrange2 256 256 _ H a b Ha Hb). cbv beta in *. lia.
+Qed.
+Lemma dig_c : forall c, byte c -> Z.land c 63 = c mod 64.
+Proof. intros. change 63 with (2 ^ 6 - 1). rewrite land_low by lia. reflexivity. Qed.
+Lemma dig_a_tail : forall a, byte a -> Z.land (Z.shiftl a 4) 48 = (a mod 4) * 16.
+Proof.
+  intros a Ha. assert (H : forallb (fun a => Z.land (Z.shiftl a 4) 48 =? (a mod 4) * 16) (zrange 256) = true) by (vm_compute; reflexivity).
+  pose proof (forallb_zrange 256 _ H a Ha). cbv beta in *. lia.
+Qed.
+Lemma dig_b_tail : forall b, byte b -> Z.land (Z.shiftl b 2) 60 = (b mod 16) * 4.
+Proof.
+  intros a Ha. assert (H : forallb (fun a => Z.land (Z.shiftl a 2) 60 =? (a mod 16) * 4) (zrange 256) = true) by (vm_compute; reflexivity).
+  pose proof (forallb_zrange 256 _ H a Ha). cbv beta in *. lia.
+Qed.
+
+Definition dfold (l : list Z) (s : dec_st * list Z) := foldi (fun _ => d64_step) 0 l s.
+
+(* decoding the encoding of s appends s (reversed) to the output and leaves count at a group boundary, pad = 0 *)
+Lemma roundtrip64_fold : forall n s, (length s <= n)%nat -> bytes s -> forall x count acc, count mod 4 = 0 ->
+  exists x' count', dfold (b64_spec s) ((x, count, 0), acc) = Ok ((x', count', 0), rev s ++ acc) /\ count' mod 4 = 0.
+Proof.
+  induction n as [|n IH]; intros s Hn Hb x count acc Hc.
+  { destruct s; [|cbn in Hn; lia]. exists x, count. split; [reflexivity|exact Hc]. }
+  destruct s as [|a [|b [|c r]]].
+  - exists x, count. split; [reflexivity|exact Hc].
+  - (* one byte: two digits, two pads *)
+    apply Forall_cons_iff in Hb. destruct Hb as [Ha _].
+    unfold dfold. cbn [b64_spec foldi].
+    rewrite dig_a, dig_a_tail by assumption.
+    assert (A0 : 0 <= a / 4 < 64) by (unfold byte in *; lia).
+    assert (A1 : 0 <= a mod 4 * 16 < 64) by (unfold byte in *; lia).
+    rewrite d64_digit by assumption. replace ((count + 1) mod 4 =? 0) with false by lia. cbn [bind].
+    rewrite d64_digit by assumption. replace ((u64 (count + 1) + 1) mod 4 =? 0) with false by (unfold u64; lia). cbn [bind].
+    rewrite d64_pad. replace ((u64 (u64 (count + 1) + 1) + 1) mod 4 =? 0) with false by (unfold u64; lia). cbn [bind].
+    rewrite d64_pad. replace ((u64 (u64 (u64 (count + 1) + 1) + 1) + 1) mod 4 =? 0) with true by (unfold u64; lia).
+    change (u64 (0 + 1)) with 1. change (u64 (1 + 1)) with 2. change (2 <? 2) with false. cbn [bind].
+    exists (xs (xs (xs (xs x (a / 4)) (a mod 4 * 16)) 0) 0), (u64 (u64 (u64 (u64 (count + 1) + 1) + 1) + 1)). split; [|unfold u64; lia].
+    assert (HX := xs4_low x (a / 4) (a mod 4 * 16) 0 0 A0 A1 ltac:(lia) ltac:(lia)).
+    destruct (out_bytes _ a 0 0 Ha ltac:(unfold byte; lia) ltac:(unfold byte; lia)) as (B1 & B2 & B3).
+    { rewrite HX. unfold byte in *. lia. }
+    rewrite B1. change (Z.to_nat 2) with 2%nat. unfold skipn. reflexivity.
+  - (* two bytes: three digits, one pad *)
+    apply Forall_cons_iff in Hb. destruct Hb as [Ha Hb]. apply Forall_cons_iff in Hb. destruct Hb as [Hb _].
+    unfold dfold. cbn [b64_spec foldi].
+    rewrite dig_a, dig_ab, dig_b_tail by assumption.
+    assert (A0 : 0 <= a / 4 < 64) by (unfold byte in *; lia).
+    assert (A1 : 0 <= a mod 4 * 16 + b / 16 < 64) by (unfold byte in *; lia).
+    assert (A2 : 0 <= b mod 16 * 4 < 64) by (unfold byte in *; lia).
+    rewrite d64_digit by assumption. replace ((count + 1) mod 4 =? 0) with false by lia. cbn [bind].
+    rewrite d64_digit by assumption. replace ((u64 (count + 1) + 1) mod 4 =? 0) with false by (unfold u64; lia). cbn [bind].
+    rewrite d64_digit by assumption. replace ((u64 (u64 (count + 1) + 1) + 1) mod 4 =? 0) with false by (unfold u64; lia). cbn [bind].
+    rewrite d64_pad. replace ((u64 (u64 (u64 (count + 1) + 1) + 1) + 1) mod 4 =? 0) with true by (unfold u64; lia).
+    change (u64 (0 + 1)) with 1. change (2 <? 1) with false. cbn [bind].
+    exists (xs (xs (xs (xs x (a / 4)) (a mod 4 * 16 + b / 16)) (b mod 16 * 4)) 0), (u64 (u64 (u64 (u64 (count + 1) + 1) + 1) + 1)). split; [|unfold u64; lia].
+    assert (HX := xs4_low x (a / 4) (a mod 4 * 16 + b / 16) (b mod 16 * 4) 0 A0 A1 A2 ltac:(lia)).
+    destruct (out_bytes _ a b 0 Ha Hb ltac:(unfold byte; lia)) as (B1 & B2 & B3).
+    { rewrite HX. unfold byte in *. lia. }
+    rewrite B1, B2. change (Z.to_nat 1) with 1%nat. unfold skipn. reflexivity.
+  - (* a full group *)
+    apply Forall_cons_iff in Hb. destruct Hb as [Ha Hb]. apply Forall_cons_iff in Hb. destruct Hb as [Hb Hr].
+    apply Forall_cons_iff in Hr. destruct Hr as [Hcc Hr].
+    unfold dfold. cbn [b64_spec foldi].
+    rewrite dig_a, dig_ab, dig_bc, dig_c by assumption.
+    assert (A0 : 0 <= a / 4 < 64) by (unfold byte in *; lia).
+    assert (A1 : 0 <= a mod 4 * 16 + b / 16 < 64) by (unfold byte in *; lia).
+    assert (A2 : 0 <= b mod 16 * 4 + c / 64 < 64) by (unfold byte in *; lia).
+    assert (A3 : 0 <= c mod 64 < 64) by (unfold byte in *; lia).
+    rewrite d64_digit by assumption. replace ((count + 1) mod 4 =? 0) with false by lia. cbn [bind].
+    rewrite d64_digit by assumption. replace ((u64 (count + 1) + 1) mod 4 =? 0) with false by (unfold u64; lia). cbn [bind].
+    rewrite d64_digit by assumption. replace ((u64 (u64 (count + 1) + 1) + 1) mod 4 =? 0) with false by (unfold u64; lia). cbn [bind].
+    rewrite d64_digit by assumption. replace ((u64 (u64 (u64 (count + 1) + 1) + 1) + 1) mod 4 =? 0) with true by (unfold u64; lia).
+    change (2 <? 0) with false. change (Z.to_nat 0) with 0%nat. unfold skipn. cbn [bind].
+    assert (HX := xs4_low x (a / 4) (a mod 4 * 16 + b / 16) (b mod 16 * 4 + c / 64) (c mod 64) A0 A1 A2 A3).
+    destruct (out_bytes _ a b c Ha Hb Hcc) as (B1 & B2 & B3).
+    { rewrite HX. unfold byte in *. lia. }
+    rewrite B1, B2, B3.
+    destruct (IH r ltac:(cbn [length] in Hn; lia) Hr
+                (xs (xs (xs (xs x (a / 4)) (a mod 4 * 16 + b / 16)) (b mod 16 * 4 + c / 64)) (c mod 64))
+                (u64 (u64 (u64 (u64 (count + 1) + 1) + 1) + 1)) (c :: b :: a :: acc) ltac:(unfold u64; lia))
+      as (x' & count' & E & Hc').
+    exists x', count'. split; [|exact Hc'].
+    unfold dfold in E. rewrite (foldi_noindex d64_step _ _ 0). rewrite E.
+    cbn [rev]. rewrite <- !app_assoc. reflexivity.
+Qed.
+
+(* Base64 round trip on flat strings: for EVERY byte string *)
+Theorem roundtrip64_flat : forall s, bytes s -> dec64_flat (b64_spec s) = Ok s.
+Proof.
+  intros s Hb. unfold dec64_flat.
+  destruct (roundtrip64_fold (length s) s (le_n _) Hb 0 0 [] eq_refl) as (x' & c' & E & _).
+  unfold dfold in E. rewrite E. rewrite app_nil_r, rev_involutive. reflexivity.
+Qed.
+End B64rt.
